@@ -70,6 +70,7 @@ type event struct {
 	Ops      []POp
 	Cond     *PCond
 	NewExp   int64 // != 0: the op sets ExpiredAt to this value
+	NewCre   int64 // != 0: a Set writes CreatedAt
 	ClearExp bool  // the op clears ExpiredAt (the record never expires from then on)
 	SetTo    *Body // Set mutator
 }
@@ -193,16 +194,22 @@ func step(s kstate, e *event) ([]kstate, string) {
 			if e.NewExp != 0 {
 				s.Exp = e.NewExp
 			}
+			if e.NewCre != 0 {
+				s.Cre = e.NewCre
+			}
 			return one(s)
 		}
 		// outside C11: a Set on a removed record is lost, or re-creates the record either
 		// as a fresh object or from the removed one (which keeps its old timestamps)
-		fresh := kstate{Exists: true, Body: *e.SetTo, Exp: e.NewExp}
+		fresh := kstate{Exists: true, Body: *e.SetTo, Exp: e.NewExp, Cre: e.NewCre}
 		old := s
 		old.Exists = true
 		old.Body = *e.SetTo
 		if e.NewExp != 0 {
 			old.Exp = e.NewExp
+		}
+		if e.NewCre != 0 {
+			old.Cre = e.NewCre
 		}
 		lost := old
 		lost.Exists = false
